@@ -568,10 +568,10 @@ impl Cfg {
     pub fn budget(&self, thorough: bool) -> usize { let m = if thorough { 4 } else { 1 }; m * match self.q { 10 | 11 => 40_000, 5..=9 => 300_000, _ => 700_000 } }
 }
 
-struct Scn { toks: Vec<String>, ans: Vec<String>, calls: u64, failed: u64, grew: [u64; NSLOT] }
+struct Scn { toks: Vec<String>, ans: Vec<String>, calls: u64, failed: u64, grew: [u64; NSLOT], repl: [u64; NSLOT] }
 fn record(t: &mut Tracker, name: &str, o: &Obs, sc: &mut Scn, rep: &mut Report, case: &str, allow_unref: Option<&str>) {
     let so = t.step(o);
-    for (i, d) in so.tok.split(',').enumerate() { if i < NSLOT && d != "=" { sc.grew[i] += 1; } }
+    for (i, d) in so.tok.split(',').enumerate() { if i < NSLOT && d != "=" { sc.grew[i] += 1; if d.starts_with("FN") { sc.repl[i] += 1; } } }
     for (sig, what) in so.viol { rep.violation(&sig, &what, case.to_string()); }
     // an old field block that lost its reference without being freed
     let unref: Vec<usize> = so.tok.split(',').enumerate().filter(|(i, d)| *i < NSLOT && d.starts_with('D')).map(|x| x.0).collect();
@@ -585,7 +585,7 @@ fn record(t: &mut Tracker, name: &str, o: &Obs, sc: &mut Scn, rep: &mut Report, 
 /// one streaming history; returns (request line, implementation answer)
 fn run_history<I: Inst>(inst: &mut I, kind: &str, cfg: &Cfg, r: &mut Rng, thorough: bool, rep: &mut Report, case: &str, rust: Option<&mut dyn FnMut(&mut I, &str, &[u8])>) -> (Tracker, Scn, Vec<u8>) {
     let mut t = Tracker::new();
-    let mut sc = Scn { toks: vec![], ans: vec![], calls: 0, failed: 0, grew: [0; NSLOT] };
+    let mut sc = Scn { toks: vec![], ans: vec![], calls: 0, failed: 0, grew: [0; NSLOT], repl: [0; NSLOT] };
     let mut rust = rust;
     let o = inst.observe();
     record(&mut t, "cr", &o, &mut sc, rep, case, None);
@@ -673,7 +673,7 @@ fn run_history<I: Inst>(inst: &mut I, kind: &str, cfg: &Cfg, r: &mut Rng, thorou
 
 fn count_growth(sc: &Scn, rep: &mut Report, pfx: &str) {
     const N: [&str; NSLOT] = ["storage", "commands", "ring", "hasher", "table", "cbuf", "lbuf", "ext", "self"];
-    for i in 0..NSLOT { if sc.grew[i] > 0 { rep.add(&format!("{}.slot_changed.{}", pfx, N[i]), sc.grew[i]); } if sc.grew[i] > 1 && i < 7 { rep.count(&format!("{}.slot_replaced.{}", pfx, N[i])); } }
+    for i in 0..NSLOT { if sc.grew[i] > 0 { rep.add(&format!("{}.slot_changed.{}", pfx, N[i]), sc.grew[i]); } if sc.repl[i] > 0 { rep.add(&format!("{}.slot_replaced_old_freed.{}", pfx, N[i]), sc.repl[i]); } }
 }
 
 fn rust_instance_case(seed: u64, thorough: bool) -> (Vec<(String, String)>, Report) {
@@ -1041,7 +1041,7 @@ pub fn run_cmd(args: &Args) {
     let mut corr = Corr::new(&args.out);
     let mut rep = Report::default();
     let m = if thorough { 8 } else { 1 };
-    let plan: Vec<(u64, usize)> = vec![(1, 220 * m), (2, 120 * m), (3, 260 * m), (4, 120 * m), (5, 120 * m), (6, 80 * m)];
+    let plan: Vec<(u64, usize)> = vec![(1, 660 * m), (2, 360 * m), (3, 520 * m), (4, 240 * m), (5, 240 * m), (6, 160 * m)];
     let only: Option<u64> = if args.rest.first().map(|s| s.as_str()) == Some("only") { args.rest.get(1).and_then(|x| x.parse().ok()) } else { None };
     let mut tasks: Vec<(u64, u64)> = vec![];
     for (kind, n) in &plan { if only.is_some() && only != Some(*kind) { continue; } for i in 0..*n { tasks.push((*kind, i as u64)); } }
